@@ -179,6 +179,18 @@ CLAIMED["C17"] = ("Proof over the generated code and the two lookup kernels. (1)
     "reflect.Type.Name. Not covered: which values reach these kernels from the marshal/unmarshal walkers, enum members of unions, schema-side enum "
     "restrictions. One recorded finding (same-named identities from two modules under one base) and one repaired defect (YANG value -1 generated as UNSET).", "5 (C17)", "")
 
+CLAIMED["C29"] = ("Proof over the generated path-struct API and the resolution kernel. (1) Accessors: the working tree's generator is run on the compressed "
+    "repository test schema and on an OpenConfig-style schema (nested lists, a three-key list with string / enumeration / union keys, a user-ordered list), "
+    "producing GoStructs (gogen) and path structs (ypathgen) into one package; for every child accessor of every path struct (87 in the quick corpus, "
+    "including every wildcard variant) it is proved that the node it returns is new, has the receiver as parent, carries as relative schema path exactly the "
+    "first alternative of the `path` tag of the GoStruct field it is named after - the data-tree path gogen wrote independently - and as keys exactly the "
+    "list's key leaves by YANG name, each mapped to the accessor's parameter of that key or to the wildcard \"*\" when the accessor has none; "
+    "ygot.NewNodePath is proved to store what it is given. (2) Resolution: (*NodePath).relPath is proved to return one PathElem per name of the relative "
+    "schema path, in order, with the keys attached to the last element only, each rendered by KeyValueAsString (so \"*\" stays \"*\"), and errors exactly "
+    "when some key cannot be rendered; ModifyKey updates exactly one key. Not covered: ygot.ResolvePath's concatenation along the parent chain (interface "
+    "dispatch over parent()/relPath(), not modelled), leaf path structs' own methods, builder-style key methods, uncompressed schemas (the generator "
+    "rejects them), schemas outside the corpus.", "5 (C29)", "")
+
 NA = {
     "C01": "RFC7951 JSON round-trip is a relation between two reflection walkers (structJSON/jsonValue vs unmarshalStruct/unmarshalList) over arbitrary generated struct types; no function-level contract within this verifier's reach carries it (no reflect memory model). Scalar kernels are decided under C18/C19 where claimed.",
     "C02": "gNMI notification round-trip lives in the reflection walkers (findUpdatedLeaves, retrieveNode); not expressible as contracts the VC generator can check.",
